@@ -210,6 +210,8 @@ func genSched(r *lib.Rand, tier string) History {
 		b := a + 1 + r.Intn(int(freq))
 		if r.Chance(1, 3) {
 			b = a // pause and start inside one block
+		} else if r.Chance(1, 3) {
+			b = a + int(freq) + r.Intn(int(freq)+1) // stay paused across the scheduled height of the next batch
 		}
 		sel := r.Intn(1000)
 		events[a] = append(events[a], Step{K: pauseK, Sel: sel})
@@ -238,9 +240,58 @@ func genSched(r *lib.Rand, tier string) History {
 	return h
 }
 
+// genThr: stream "thr" — module-owned contexts with two or three providers whose RESPONSE THRESHOLD is
+// edited through the owning module's keeper path (as oracle EditFeed does) WHILE A BATCH IS OUT; some of
+// the providers answer, the others stay silent until the batch expires, so that the number of valid
+// outputs often lies between the threshold the batch was issued with and the edited one.  Only the
+// callbacks are judged (Service.CheckX.check_case_thr): "modupdate" is not a step of the model.
+func genThr(r *lib.Rand, tier string) History {
+	var h History
+	c := &h.Cfg
+	c.Tax = "50000000000000000"
+	c.Slash = "0"
+	c.MaxTo = r.Range(4, 8)
+	c.Mult = r.Range(1, 5)
+	c.MinDep = r.Range(50, 200)
+	c.WaitA, c.WaitC = 2, 2
+	c.Restricted = true
+	for a := 0; a < nActors; a++ {
+		c.Bal = append(c.Bal, []int64{1000000000, 1000000000})
+	}
+	h.Steps = append(h.Steps, Step{K: "define", Svc: 0, Who: 0})
+	for p := 2; p <= 4; p++ {
+		pr := &Pricing{D: 0, A: r.Range(1, 50)}
+		h.Steps = append(h.Steps, Step{K: "bind", Svc: 0, Prov: p, DepA: pr.A*c.Mult*3 + c.MinDep + 5000, Pr: pr, Qos: 1, Opt: 1})
+	}
+	timeout := r.Range(2, 4)
+	freq := timeout + r.Range(1, 4)
+	provs := [][]int{{2, 3}, {2, 3, 4}, {3, 4}}[r.Intn(3)]
+	s := Step{K: "modcreate", Svc: 0, Who: 5, CapA: 100000, Timeout: timeout, Rep: true, Freq: freq, Total: -1, Provs: provs}
+	s.Thr = r.Range(1, int64(len(provs)))
+	h.Steps = append(h.Steps, s)
+	blocks := int(3*freq) + r.Intn(int(freq)+2)
+	if tier == "thorough" {
+		blocks += r.Intn(int(2 * freq))
+	}
+	for b := 0; b < blocks; b++ {
+		h.Steps = append(h.Steps, Step{K: "end", Dt: r.Range(1, 8)})
+		// after most block ends: a threshold edit, then zero, one or two answers
+		if r.Chance(2, 3) {
+			h.Steps = append(h.Steps, Step{K: "modupdate", Sel: r.Intn(1000), Thr: r.Range(1, int64(len(provs)))})
+		}
+		for k := r.Weighted(2, 3, 2); k > 0; k-- {
+			h.Steps = append(h.Steps, Step{K: "respond", Sel: r.Intn(1000), Kind: 1})
+		}
+	}
+	return h
+}
+
 func gen(r *lib.Rand, tier, stream string, i int) History {
 	if stream == "sched" {
 		return genSched(r, tier)
+	}
+	if stream == "thr" {
+		return genThr(r, tier)
 	}
 	var h History
 	c := &h.Cfg
@@ -1120,6 +1171,18 @@ func exec(h History) lib.Case {
 				term = tx(lib.App("MUpdateCtx", coqCtxID(id), zlist(st.Provs), lib.Z(int64(st.CapD)), lib.Z(st.CapA), lib.Z(st.Timeout), lib.Z(st.Freq), lib.Z(st.Total), lib.Z(int64(cons))))
 			}
 			render = fmt.Sprintf("ctx %s by %d", coqCtxID(id), cons)
+		case "modupdate":
+			// keeper-level edit of the response threshold of a module-owned context (not a step of the model:
+			// printed as a rate removal of an unused denom, which the model ignores; stream "thr" judges callbacks only)
+			if len(cvs) == 0 {
+				continue
+			}
+			id, cons := pickCtx(st.Sel, 0, true)
+			out = e.Try(func(ctx sdk.Context) error {
+				return k.UpdateRequestContext(ctx, id, nil, uint32(st.Thr), nil, 0, 0, 0, w.addr(cons))
+			})
+			term = lib.App("SetRate", "7", "None")
+			render = fmt.Sprintf("ctx %s threshold %d", coqCtxID(id), st.Thr)
 		case "modpause", "modstart", "modkill":
 			if st.Mode == 0 && len(cvs) == 0 {
 				continue
